@@ -314,9 +314,9 @@ func filterParams(ps []*Param, name string) []*Param {
 
 var structKinds = []string{"endpoint:remove", "consumes:remove", "param:add-required", "param:optional->required", "param:in-change",
 	"param:collectionFormat-change", "param:collectionFormat(omitted->pipes)", "param(header):collectionFormat(omitted->ssv)", "body.property:add-required", "body.property:becomes-required", "body:add-required", "body:optional->required",
-	"param(header):optional->required", "param(formData):optional->required"}
+	"param(header):optional->required", "param(formData):optional->required", "body.property(first):add-required"}
 var respKinds = []string{"response:remove", "response.property:remove", "response.header:remove", "response.enum:grow",
-	"response.property(nested):remove", "response.enum(ref):grow"}
+	"response.property(nested):remove", "response.enum(ref):grow", "response.property(last):remove", "response.property(last,ref):remove"}
 
 func structural(g *G, base *Spec, kind string) *CatEdit {
 	a := base.Clone()
@@ -403,9 +403,13 @@ func structural(g *G, base *Spec, kind string) *CatEdit {
 			}
 		}
 		e.A, e.B, e.Witness = a, b, "request with w=1,2 (csv): not an integer list under pipes"
-	case "body.property:add-required", "body.property:becomes-required":
+	case "body.property:add-required", "body.property:becomes-required", "body.property(first):add-required":
 		pi, op := pickOp(g, a, true)
 		sa := &Schema{Type: []string{"object"}, Props: []KV{{K: "id", V: &Schema{Type: []string{"string"}}}}}
+		if kind == "body.property(first):add-required" {
+			// a free-form object gains its first, required property: one side declares no properties at all
+			sa = &Schema{Type: []string{"object"}}
+		}
 		if kind == "body.property:becomes-required" {
 			sa.Props = append(sa.Props, KV{K: "w", V: &Schema{Type: []string{"string"}}})
 		}
@@ -414,7 +418,7 @@ func structural(g *G, base *Spec, kind string) *CatEdit {
 		opb := findOp(b, pi.URL, op.Method)
 		for _, p := range opb.Params {
 			if p.In == "body" {
-				if kind == "body.property:add-required" {
+				if kind != "body.property:becomes-required" {
 					p.Schema.Props = append(p.Schema.Props, KV{K: "w", V: &Schema{Type: []string{"string"}}})
 				}
 				p.Schema.Required = []string{"w"}
@@ -516,6 +520,17 @@ func respEdit(g *G, base *Spec, kind string) *CatEdit {
 		ra, rb = body(obj(KV{"id", str()}, KV{"w", str()})), body(obj(KV{"id", str()}))
 	case "response.property(nested):remove":
 		ra, rb = body(obj(KV{"o", obj(KV{"id", str()}, KV{"w", str()})})), body(obj(KV{"o", obj(KV{"id", str()})}))
+	case "response.property(last):remove":
+		// the last declared property goes: one side declares no properties at all
+		ra, rb = body(obj(KV{"w", str()})), body(obj())
+	case "response.property(last,ref):remove":
+		setDefs(a, []DefKV{{K: "WL", V: obj(KV{"w", str()})}})
+		ra = body(&Schema{Ref: "WL"})
+		setResp(op, ra)
+		b := a.Clone()
+		setDefs(b, []DefKV{{K: "WL", V: obj()}})
+		e.A, e.B, e.Witness = a, b, "client reading the documented property WL.w"
+		return e
 	case "response.header:remove":
 		ra = body(str())
 		ra.Headers = []*Header{{Name: "X-W", Chain: []*Simple{{Type: "string"}}}}
